@@ -14,17 +14,17 @@
 (***************************************************************************)
 EXTENDS NsCache, Json
 VARIABLE hist
-\* diamond a -> {b, c} -> d, an undefined supertype u of c (as MC_NsCache)
-MCSyms == {"a", "b", "c", "d", "u"}
-MCGraph == [x \in {"a", "b", "c", "d"} |-> CASE x = "a" -> {"b", "c"} [] x = "b" -> {"d"} [] x = "c" -> {"d", "u"} [] OTHER -> {}]
-Qs == {<<"sup", "a">>, <<"allsup", "a">>, <<"inh", "a">>, <<"inh", "b">>, <<"fits", "a", "d">>, <<"fits", "b", "a">>, <<"inh", "u">>,
-       <<"sup", "d">>, <<"allsup", "c">>, <<"fits", "c", "u">>, <<"inh", "d">>}
+\* diamond a -> {b, c} -> d, an undefined supertype u of c, and a root r above c only (an ancestor b does not share) (as MC_NsCache)
+MCSyms == {"a", "b", "c", "d", "r", "u"}
+MCGraph == [x \in {"a", "b", "c", "d", "r"} |-> CASE x = "a" -> {"b", "c"} [] x = "b" -> {"d"} [] x = "c" -> {"d", "r", "u"} [] OTHER -> {}]
+Qs == {<<"sup", "a">>, <<"allsup", "a">>, <<"inh", "a">>, <<"inh", "b">>, <<"fits", "a", "d">>, <<"inh", "u">>, <<"fits", "c", "u">>, <<"inh", "c">>}
 ProgsR == {<<q>> : q \in Qs} \cup {<<q1, q2>> : q1, q2 \in Qs}
+ProgsR1 == {<<q>> : q \in Qs}          \* for three threads (the set of initial states must stay enumerable)
 MCThreads == {"t1", "t2"}
 MCThreads3 == {"t1", "t2", "t3"}
 
 \* the implementation iterates `is` lists in their written order; the replayed graph writes them in this rank order
-Rank == [x \in MCSyms |-> CASE x = "a" -> 1 [] x = "b" -> 2 [] x = "c" -> 3 [] x = "d" -> 4 [] OTHER -> 5]
+Rank == [x \in MCSyms |-> CASE x = "a" -> 1 [] x = "b" -> 2 [] x = "c" -> 3 [] x = "d" -> 4 [] x = "r" -> 5 [] OTHER -> 6]
 RECURSIVE RankedSeqOf(_)
 RankedSeqOf(S) == IF S = {} THEN <<>> ELSE LET x == CHOOSE y \in S : \A z \in S : Rank[y] <= Rank[z] IN <<x>> \o RankedSeqOf(S \ {x})
 
